@@ -48,8 +48,11 @@ InSomeChunk(cs, b) == \E i \in 1..Len(cs) : b.addr >= cs[i].lo /\ b.addr + b.sz 
 InLiveGrant(gs, lo, hi) == \E g \in 1..Len(gs) : gs[g].live /\ lo >= gs[g].addr /\ hi <= gs[g].addr + gs[g].size
 Disjoint(b1, b2) == b1.sz = 0 \/ b2.sz = 0 \/ b1.addr + b1.sz <= b2.addr \/ b2.addr + b2.sz <= b1.addr
 
+\* a number no arena of the harness can produce (clamped by the recorder): the bookkeeping read through the public API is corrupt
+Insane(r) == Has(r.o, "insane")
 C01_Viol(r) ==
     LET cs == Chunks(r.o)  gs == Grants(r.o)  bs == Blocks(r.o) IN
+    \/ Insane(r)
     \/ \E i \in 1..Len(bs) :
           \/ ~InSomeChunk(cs, bs[i])                                  \* inside memory the arena owns ...
           \/ ~InLiveGrant(gs, bs[i].addr, bs[i].addr + bs[i].sz)       \* ... which the base allocator has not got back
@@ -82,14 +85,17 @@ WriteOk(r, cs, w) ==
 \* while an exclusive-borrow collection is filled it writes its elements into the prepared free range; finalising moves
 \* them to the bump side of that range: these steps may write anywhere inside the content range of the current chunk
 \* (header included: a write range may straddle both) that is not a live block (live blocks are covered by the damage check)
-PrepWrite(r) == r.a \in {"prep_push", "prep_reserve", "prep_extend", "prep_commit", "iter_mut", "fmt_mut", "try_with"}   \* (alloc_try_with constructs the Result in free space first)
+PrepWrite(r) == r.a \in {"prep_push", "prep_reserve", "prep_extend", "prep_commit", "iter_mut", "fmt_mut", "try_with", "iter_grow", "fmt_grow"}
+                \/ (r.a = "enter" /\ r.args.kind = "prep")        \* (from_elem_in fills the new collection right away)   \* (alloc_try_with constructs the Result in free space first)
 InChunk(cs, lo, hi) == \E i \in 1..Len(cs) : lo >= cs[i].start /\ hi <= cs[i].start + cs[i].size
 
 C02_Viol(r) ==
     LET cs == Chunks(r.o) IN
     \/ r.o.damaged # <<>>                                             \* a live block's bytes changed
+    \/ Insane(r)
     \/ Has(r.o, "vbad") /\ r.o.vbad # <<>>                             \* a live vector no longer holds its elements
     \/ r.a = "vec_into" /\ Ok(r) /\ ~r.o.content_ok                   \* the finalised slice is not the vector's contents
+    \/ r.a \in {"iter_grow", "fmt_grow"} /\ Ok(r) /\ (~r.o.content_ok \/ r.o.len # r.exp.x.len)   \* alloc_iter / alloc_fmt: exactly the elements / the text
     \/ Has(r.o, "prefix_ok") /\ ~r.o.prefix_ok                         \* realloc lost the surviving prefix
     \/ Has(r.o, "zero_ok") /\ ~r.o.zero_ok                             \* zeroed memory is not zero
     \/ IsStep(r) /\ r.a # "drop" /\ ~PrepWrite(r) /\ \E k \in 1..Len(r.o.writes) : ~WriteOk(r, cs, r.o.writes[k])
@@ -132,7 +138,7 @@ C03_Again(r) ==
 (***************************************************************************)
 BaseEvs(r) == r.o.base
 MayRelease(r) == r.a \in {"reset", "drop", "final"} \/ (r.a = "with_settings" /\ r.o.res = "panic")
-MayAcquire(r) == r.a \in {"ctor", "alloc", "grow", "shrink", "reserve", "enter", "prep_push", "prep_reserve", "prep_extend", "iter_mut", "fmt_mut", "try_with", "vec_new", "vec_extend"} \* enter: by_value / claim on unallocated
+MayAcquire(r) == r.a \in {"ctor", "alloc", "grow", "shrink", "reserve", "enter", "prep_push", "prep_reserve", "prep_extend", "iter_mut", "fmt_mut", "try_with", "vec_new", "vec_extend", "iter_grow", "fmt_grow"} \* enter: by_value / claim on unallocated
 FreeOk(gs, ev) ==
     \E g \in 1..Len(gs) : /\ gs[g].addr = ev[2] /\ ~gs[g].live /\ gs[g].frees = 1
                           /\ gs[g].align = ev[4] /\ ev[3] >= gs[g].req /\ ev[3] <= gs[g].size
@@ -162,6 +168,7 @@ C05_Viol(r) ==
 C10_Viol(r) ==
     IsStep(r) /\ r.a # "drop" /\
     LET cs == Chunks(r.o)  st == r.o.stats  gs == Grants(r.o) IN
+    \/ Insane(r)
     \/ r.o.cur > Len(cs)
     \/ r.o.cur # 0 /\ LET c == cs[r.o.cur] IN c.pos < c.lo \/ c.pos > c.hi \/ c.pos % r.o.ma # 0
     \/ \E i \in 1..Len(cs) : LET c == cs[i] IN
@@ -183,7 +190,7 @@ C10_Viol(r) ==
 (***************************************************************************)
 C12_Viol(r) ==
     IsStep(r) /\
-    \/ NAllocEv(r) > 1 /\ r.a \notin {"iter_mut", "fmt_mut"}                                      \* at most one chunk per request (the one-shot
+    \/ NAllocEv(r) > 1 /\ r.a \notin {"iter_mut", "fmt_mut", "iter_grow", "fmt_grow"}                                      \* at most one chunk per request (the one-shot
                                                                                 \* helper is a whole fill: several requests)
     \/ AllocLike(r) /\ Ok(r) /\ NAllocEv(r) = 1 /\
          LET ev == CHOOSE k \in 1..Len(r.o.base) : r.o.base[k][1] = "alloc" IN
@@ -229,11 +236,13 @@ C07_Viol(r) ==
     IsStep(r) /\
     \* the base allocator refused / the size computation overflows: an error, never success, never a panic of a try_ / allocator call
     \/ ScriptedFail(r) /\ (r.o.res = "ok" \/ (r.v # "panicking" /\ r.o.res # "err"))
-    \/ r.a = "alloc_huge" /\ (r.o.res = "ok" \/ (r.v # "panicking" /\ r.o.res # "err"))
+    \/ (r.a = "alloc_huge" \/ (r.a = "prep_reserve" /\ Has(r.args, "huge"))) /\ (r.o.res = "ok" \/ (r.v # "panicking" /\ r.o.res # "err"))
+    \* the collection whose reserve overflowed has its previous length and capacity
+    \/ r.a = "prep_reserve" /\ Has(r.args, "huge") /\ (r.o.plen # r.exp.x.len \/ r.o.pcap < r.o.plen)
     \* a vector whose growth failed is unchanged (same buffer, length, capacity; its elements are covered by C02 below)
     \/ r.a = "vec_extend" /\ VecStep(r) /\ r.o.res = "err" /\ (r.o.vaddr # r.o.oaddr \/ r.o.vlen # r.o.plen \/ r.o.vcap # r.o.pcap)
     \* after a failure: earlier allocations intact, invariants hold, nothing leaked or released twice ...
-    \/ (r.exp.fails > 0 \/ r.a = "alloc_huge") /\ (C01_Viol(r) \/ C02_Viol(r) \/ C05_Viol(r) \/ C10_Viol(r))
+    \/ (r.exp.fails > 0 \/ r.a = "alloc_huge" \/ Has(r.args, "huge")) /\ (C01_Viol(r) \/ C02_Viol(r) \/ C05_Viol(r) \/ C10_Viol(r))
     \* ... and the arena keeps working: a later request that the model can serve is served
     \/ r.exp.fails > 0 /\ r.exp.res = "ok" /\ r.o.res # "ok" /\ ~ScriptedFail(r)
 
@@ -290,8 +299,10 @@ C15_Viol(r) ==
          \* at most a later, still empty chunk became the current one
          \/ r.o.cur < r.o.ecur
          \/ r.o.cur # r.o.ecur /\ r.o.cur # 0 /\ cs[r.o.cur][6] # 0
-         \/ r.o.res = "panic"
-         \/ r.o.res = "err" /\ ~ScriptedFail(r)
+         \* the collection never holds more elements than the free space it was given
+         \/ r.a # "prep_drop" /\ r.o.plen > r.o.pcap
+         \/ r.o.res = "panic" /\ ~(Has(r.args, "huge") /\ r.v = "panicking")
+         \/ r.o.res = "err" /\ ~ScriptedFail(r) /\ ~Has(r.args, "huge")
     \/ r.a = "prep_commit" /\
          \/ r.o.res # "ok"
          \/ ~r.o.content_ok                                       \* exactly the pushed elements (reversed for rev)
@@ -339,10 +350,11 @@ C16_Viol(r) ==
 (***************************************************************************)
 Drift(r) ==
     IsStep(r) /\
-    \/ r.o.res # r.exp.res
+    \/ r.o.res # r.exp.res /\ ~(r.v = "panicking" /\ r.exp.res = "err" /\ r.o.res = "panic")   \* (the panicking twin reports a refusal by unwinding)
     \/ AllocLike(r) /\ Ok(r) /\ r.o.addr # r.exp.addr
     \/ r.a \in {"vec_new", "vec_extend", "vec_shrink", "vec_truncate"} /\ VecStep(r) /\ Has(r.o, "vlen") /\
          (r.o.vlen # r.exp.x.len \/ r.o.vcap # r.exp.x.cap \/ (r.o.vcap > 0 /\ r.o.vaddr # r.exp.addr))
+    \/ r.a \in {"iter_grow", "fmt_grow"} /\ Ok(r) /\ r.o.addr # r.exp.addr
     \/ r.a = "vec_into" /\ Ok(r) /\ (r.o.addr # r.exp.addr \/ r.o.len # r.exp.x.len * r.o.vesz)
     \/ VecStep(r) /\ r.o.res = "skipped"
     \/ r.a # "drop" /\ (r.o.cur # r.exp.cur \/ r.o.stats[4] # r.exp.allocated \/ r.o.stats[1] # r.exp.count
@@ -379,6 +391,7 @@ Init == /\ done = TRUE
         /\ PrintT(<<"N_EXIT", Cardinality({i \in Idx : IsExit(Rec[i])})>>)
         /\ PrintT(<<"N_REALLOC", Cardinality({i \in Idx : AllocLike(Rec[i]) /\ Rec[i].a # "alloc" /\ Ok(Rec[i])})>>)
         /\ PrintT(<<"N_NEWCHUNK", Cardinality({i \in Idx : IsStep(Rec[i]) /\ NAllocEv(Rec[i]) = 1})>>)
+        /\ PrintT(<<"N_GROWHELPER", Cardinality({i \in Idx : Rec[i].a \in {"iter_grow", "fmt_grow"} /\ Rec[i].o.len > 0})>>)
         /\ PrintT(<<"N_VEC", Cardinality({i \in Idx : VecStep(Rec[i])})>>)
         /\ PrintT(<<"N_VEC_RELOC", Cardinality({i \in Idx : Rec[i].a = "vec_extend" /\ VecStep(Rec[i]) /\ Rec[i].o.res = "ok" /\ Rec[i].o.oaddr # 0
                                                           /\ Rec[i].o.vaddr # Rec[i].o.oaddr})>>)
